@@ -3,6 +3,8 @@ package main
 // Timeout (C07) and hedge (C09) executor rules.
 
 import (
+	"strconv"
+	"go/token"
 	"fmt"
 	"go/types"
 	"strings"
@@ -347,6 +349,11 @@ func c07ErrOwner(c *Ctx) {
 					}
 					n++
 					name := c.fn(fn)
+					// a load consulted only as what an error is compared with (errors.Is(err, ErrExceeded), ==) produces
+					// nothing
+					if ld, isLoad := in.(*ssa.UnOp); isLoad && comparedOnly(ld) {
+						continue
+					}
 					// the callback, IsFailure, and helpers only they reach (isExceeded(err), exceededResult())
 					isCallback := ix.Within(fn, func(f *ssa.Function) bool { return callbacks[f] || (f.Name() == "IsFailure" && f.Pkg == fn.Pkg) })
 					if !(isCallback || fn.Name() == "IsFailure" || fn.Name() == "init") {
@@ -757,11 +764,14 @@ func c09Attempt(c *Ctx, ev *Evaluator, g *Event, innerFn, maxHedges, resultChan 
 			c.Fail(name, pos, msg, pathTrace(ev, q))
 		}
 		evs := q.Events()[q.Base:]
-		var in, add, cas, send *Event
+		var in, add, cas, send, once *Event
 		var abortable *T
-		nIn, nAdd, nCas, nSend := 0, 0, 0, 0
+		nIn, nAdd, nCas, nSend, nOnce := 0, 0, 0, 0, 0
 		for _, e := range evs {
 			switch {
+			case isCall(e, "Do") && fresh(e.Recv) && strings.Contains(types.TypeString(e.Recv.Typ, nil), "sync.Once"):
+				once = e
+				nOnce++
 			case isDynCall(e, innerFn):
 				in = e
 				nIn++
@@ -804,8 +814,40 @@ func c09Attempt(c *Ctx, ev *Evaluator, g *Event, innerFn, maxHedges, resultChan 
 			continue
 		}
 		if eligible == triF {
-			if nCas != 0 || nSend != 0 {
+			if nCas != 0 || nSend != 0 || nOnce != 0 {
 				bad("a result that neither matches the cancel conditions nor is the last to finish must not be delivered nor claim the delivery slot")
+			}
+			continue
+		}
+		// the claim may also be a sync.Once shared by all attempts of this call: Do runs the send for the first claimant
+		// only, which is what winning the CompareAndSwap means
+		if nCas == 0 && nOnce == 1 && nSend == 0 {
+			shared := false
+			if n, err := strconv.Atoi(once.Recv.Aux); err == nil && g.Snap != nil && n <= g.Snap.nFresh {
+				shared = true
+			}
+			if !shared || len(once.Args) != 1 || once.Args[0].Fn == nil {
+				bad("the sync.Once that claims delivery must be the one shared by all attempts of this call, and be given the send")
+				continue
+			}
+			for _, d := range ev.CallTerm(q.State, once.Args[0], nil) {
+				var own []*Event
+				for _, x := range impure(d) {
+					if x.Idx >= d.Base {
+						own = append(own, x)
+					}
+				}
+				if d.Exit != ExitReturn || len(own) != 1 || own[0].Kind != EvSend || own[0].Addr != resultChan {
+					ok = false
+					c.Fail(name, pos, "the function run once must be exactly one send on the result channel", pathTrace(ev, d))
+					continue
+				}
+				sawSend = true
+				m := own[0].Val
+				if (m.Op != "alloc" && m.Op != "struct") || ev.ValueField(d.State, m, "result") != in.Res[0] || ev.ValueField(d.State, m, "index") != idx {
+					ok = false
+					c.Fail(name, pos, "the message must carry this attempt's own result and index", pathTrace(ev, d))
+				}
 			}
 			continue
 		}
@@ -850,7 +892,8 @@ func c09DelayBuilder(c *Ctx) {
 		c.Unresolved("hedgepolicy.BuilderWithDelay", "not found")
 		return
 	}
-	ev := NewEvaluator(c.P, EvalConfig{NoSamePkgInline: true})
+	// helpers of the package that make the constant function (fixedDelay(d)) are evaluated in place
+	ev := NewEvaluator(c.P, EvalConfig{Opaque: map[string]bool{"BuilderWithDelayFunc": true}})
 	ok := true
 	ps := ev.Run(fn)
 	for _, p := range ps {
@@ -870,4 +913,30 @@ func c09DelayBuilder(c *Ctx) {
 	if ok && len(ps) > 0 {
 		c.Ok(c.fn(fn), c.P.FuncPos(fn), "constant delay function returning the configured delay")
 	}
+}
+
+// comparedOnly: the loaded error value is used only as the target of errors.Is / errors.As-style comparisons and of
+// == / != tests.
+func comparedOnly(v ssa.Value) bool {
+	refs := v.Referrers()
+	if refs == nil || len(*refs) == 0 {
+		return false
+	}
+	for _, r := range *refs {
+		switch x := r.(type) {
+		case *ssa.DebugRef:
+		case *ssa.BinOp:
+			if x.Op != token.EQL && x.Op != token.NEQ {
+				return false
+			}
+		case *ssa.Call:
+			cal := x.Call.StaticCallee()
+			if cal == nil || cal.Pkg == nil || cal.Pkg.Pkg.Path() != "errors" || cal.Name() != "Is" || len(x.Call.Args) != 2 || x.Call.Args[1] != v || x.Call.Args[0] == v {
+				return false
+			}
+		default:
+			return false
+		}
+	}
+	return true
 }
